@@ -982,7 +982,16 @@ fn dev_case<const N: usize>(ctx: &Ctx, idx: usize, id: String, hostile: bool) ->
                     let i = rng.below(held.len() as u64) as usize;
                     let (bid, b) = held.remove(i);
                     let ident = b.as_bytes().as_ptr() as usize;
+                    // (C09) once handed back, the buffer is owned by the driver: it must not be released
+                    // while it is posted to the device
+                    let _ = crate::c09_drop::take_frees();
+                    crate::c09_drop::watch(true);
                     let r = guarded(|| net.recycle_rx_buffer(b));
+                    crate::c09_drop::watch(false);
+                    let freed = crate::c09_drop::take_frees();
+                    if !freed.is_empty() {
+                        c.fail(format!("[C09] recycle_rx_buffer released {} driver-owned receive buffer(s) still shared with the live device", freed.iter().map(|(_, n)| n).sum::<usize>()));
+                    }
                     let new = with_nic(|n| n.poll_rx());
                     let tok = new.last().map(|c| c.head.to_string()).unwrap_or("-".into());
                     match r {
